@@ -19,6 +19,8 @@ import (
 
 type c08Case struct {
 	Ops []op `json:"ops"`
+	// Hooks installs the cron state hooks (as sys.System does).
+	Hooks bool `json:"hooks,omitempty"`
 }
 
 var c08Ids = []string{"a", "b", "c", "d", "e", "f"}
@@ -76,6 +78,7 @@ func genC08(t *rapid.T) c08Case {
 			c.Ops = append(c.Ops, op{K: "addFact", Id: id, L: []string{rapid.SampledFrom(c08Ids).Draw(t, l+".dw")}, Doc: M{"v": "late"}})
 		}
 	}
+	c.Hooks = rapid.IntRange(0, 2).Draw(t, "hooks") == 0
 	return c
 }
 
@@ -91,6 +94,9 @@ func runC08(c c08Case) *vlib.Outcome {
 	o := &vlib.Outcome{}
 	for _, kind := range []string{"indexed", "linear"} {
 		w := newWorld(kind, nil, o)
+		if c.Hooks {
+			w.withCronHooks()
+		}
 		if _, err := w.open("L"); err != nil {
 			o.Fail("OPEN", "cannot create location: %v", err)
 			return o
